@@ -69,6 +69,7 @@ fn main() {
         "C13" => run_property(&props::c13::C13, &args),
         "C14" => run_property(&props::c14::C14, &args),
         "C15" => run_property(&props::c15::C15, &args),
+        "C16" => run_property(&props::c16::C16, &args),
         "C17" => run_property(&props::c17::C17, &args),
         "C20" => run_property(&props::c20::C20, &args),
         x => {
